@@ -725,8 +725,12 @@ func main() {
 				for k := range bs {
 					bs[k] = r.Intn(4)
 				}
-				events := r.Range(1, 3)
-				return runCaseWS(roots, gmp, bs, events, r.Intn(events))
+				events := r.Range(0, 3) // 0: a plain query over the WebSocket
+				which := 0
+				if events > 0 {
+					which = r.Intn(events)
+				}
+				return runCaseWS(roots, gmp, bs, events, which)
 			})
 		}
 		// 5. subscriptions whose every event leaves pending work behind: an asynchronous object
